@@ -1,6 +1,7 @@
 #!/bin/sh
 # Builds the harness once (offline) so that the per-check builds are incremental.
-set -e
-cd /verif/harness
+# A failure here is not fatal: every check (re)builds the binaries it needs itself.
+cd /verif/harness || exit 0
 [ -f Cargo.lock ] || cp /repo/Cargo.lock Cargo.lock
 CARGO_NET_OFFLINE=true cargo build --release --offline 2>&1 | tail -3
+exit 0
